@@ -120,5 +120,5 @@ class DSN:
 		if starts != origin and not origin.startswith(f'{starts}{delimiter}'):
 			return origin
 
-		elems = [elem for elem in origin.split(starts)[1].split(delimiter)]
+		elems = [elem for elem in origin[len(starts):].split(delimiter)]
 		return cls.join(*elems)
